@@ -9,9 +9,11 @@ def run(ctx, ps, gen_bad):
     if ctx.quick:
         plan = [('names', 3, 6, 14), ('xrename', 3, 6, 12), ('data', 3, 6, 8), ('names', 4, 5, 6), ('relock', 3, 6, 30),
                 # cold inode cache, a directory larger than the cache, stalled inode reads (slots recycled under a reader)
-                ('coldcache', 4, 8, 8)]
+                ('coldcache', 4, 8, 8),
+                # creates of one name while the first of them helps to finish a background free it was handed (after a hard stop)
+                ('allocretry', 3, 4, 8)]
     else:
-        plan = [('names', 3, 7, 400), ('xrename', 3, 7, 300), ('data', 3, 7, 300), ('names', 4, 6, 200), ('data', 4, 6, 200), ('coldcache', 4, 12, 60), ('relock', 3, 6, 300)]
+        plan = [('names', 3, 7, 400), ('xrename', 3, 7, 300), ('data', 3, 7, 300), ('names', 4, 6, 200), ('data', 4, 6, 200), ('coldcache', 4, 12, 60), ('relock', 3, 6, 300), ('allocretry', 3, 4, 200)]
     return concengine.run(ctx, 'C03', plan, kinds={'lin', 'trace', 'panic', 'wf', 'tie'})
 
 
